@@ -65,6 +65,16 @@ theorem flood_has_start {nbrs : C → List C} {touches : C → Bool} (start : C)
     (h : flood nbrs touches pick fuel start = some v) : start ∈ v :=
   (flood_eq_reach start pick hpick fuel v h start).mpr Reach.base
 
+/-- **closure**: a touching neighbour of a returned cell is returned — no cell the loop could still
+    have expanded is left out -/
+theorem flood_closed {nbrs : C → List C} {touches : C → Bool} (start : C)
+    (pick : List C → Option C) (hpick : PickSound pick) (fuel : Nat) (v : List C)
+    (h : flood nbrs touches pick fuel start = some v) :
+    ∀ c ∈ v, ∀ n ∈ nbrs c, touches n = true → n ∈ v := by
+  intro c hc n hn ht
+  rw [flood_eq_reach start pick hpick fuel v h] at hc ⊢
+  exact Reach.step hc hn ht
+
 /-- a neighbour path `start = c₀, c₁, …, cₙ` whose cells `c₁ … cₙ` all touch the shape -/
 def TouchPath (nbrs : C → List C) (touches : C → Bool) : C → List C → Prop
   | _, [] => True
